@@ -1,0 +1,34 @@
+//go:build verif
+
+package verifhook
+
+import (
+	"sync/atomic"
+)
+
+// Handler is the type of function that receives hook points. op names the
+// operation about to be performed, descriptor is the directory (or file)
+// descriptor it operates on (or -1), and name is the leaf name or path. A
+// non-nil return value is returned by the hooked operation instead of
+// performing it.
+type Handler func(op string, descriptor int, name string) error
+
+// handler is the installed handler (if any).
+var handler atomic.Pointer[Handler]
+
+// Set installs (or, with nil, removes) the hook point handler.
+func Set(h Handler) {
+	if h == nil {
+		handler.Store(nil)
+	} else {
+		handler.Store(&h)
+	}
+}
+
+// Point reports that the named operation is about to be performed.
+func Point(op string, descriptor int, name string) error {
+	if h := handler.Load(); h != nil {
+		return (*h)(op, descriptor, name)
+	}
+	return nil
+}
